@@ -1,0 +1,256 @@
+//! Read-only observation hooks and kernel wrappers used by the out-of-tree verification harnesses.
+//!
+//! Compiled only with `--cfg rust_cc_verif` (or under Kani). Nothing in here is used by the crate
+//! itself and no existing control flow is altered.
+
+#![allow(missing_docs, clippy::missing_safety_doc)]
+
+use core::ptr::NonNull;
+
+use crate::cc::CcBox;
+use crate::counter_marker::CounterMarker;
+use crate::{Cc, Trace, POSSIBLE_CYCLES};
+
+/// Snapshot of the per-object bookkeeping of a managed allocation.
+#[derive(Copy, Clone, Debug, PartialEq, Eq)]
+#[repr(C)]
+pub struct Snapshot {
+    /// Address of the allocation.
+    pub addr: usize,
+    /// Strong counter (14 bits).
+    pub strong: u16,
+    /// Tracing counter (14 bits, raw: the reserved all-ones value means "dropped").
+    pub tracing: u16,
+    /// 0 = not marked, 1 = in possible cycles, 2 = in list, 3 = in queue.
+    pub mark: u8,
+    /// `true` when the finalized bit is set.
+    pub finalized: bool,
+    /// `true` when the side record (weak metadata) has been allocated.
+    pub has_metadata: bool,
+    /// `true` when the value has been marked as dropped.
+    pub dropped: bool,
+    /// Address of the next element in the intrusive list (0 = none).
+    pub next: usize,
+    /// Address of the previous element in the intrusive list (0 = none).
+    pub prev: usize,
+}
+
+#[inline(never)]
+unsafe fn snapshot_raw(ptr: NonNull<CcBox<()>>) -> Snapshot {
+    let cm: &CounterMarker = ptr.as_ref().counter_marker();
+    let (tc, c) = cm.verif_raw();
+    Snapshot {
+        addr: ptr.as_ptr() as usize,
+        strong: c & 0x3FFF,
+        tracing: tc & 0x3FFF,
+        mark: (tc >> 14) as u8,
+        finalized: (c & 0x4000) != 0,
+        has_metadata: (c & 0x8000) != 0,
+        dropped: (tc & 0x3FFF) == 0x3FFF,
+        next: (*ptr.as_ref().get_next()).map_or(0, |p| p.as_ptr() as usize),
+        prev: (*ptr.as_ref().get_prev()).map_or(0, |p| p.as_ptr() as usize),
+    }
+}
+
+/// Returns a snapshot of the bookkeeping of the allocation `cc` points to.
+#[inline]
+pub fn snapshot<T: ?Sized + Trace>(cc: &Cc<T>) -> Snapshot {
+    unsafe { snapshot_raw(NonNull::from(cc.inner()).cast()) }
+}
+
+/// Result of a walk over the buffer of possible cycle roots.
+#[derive(Copy, Clone, Debug, PartialEq, Eq)]
+#[repr(C)]
+pub struct BufferWalk {
+    /// Whether the thread-local buffer could be accessed.
+    pub accessible: bool,
+    /// The cached size (`buffered_objects_count()`).
+    pub cached_size: usize,
+    /// The number of elements found following the `next` links (stops at `limit`).
+    pub walked: usize,
+    /// `true` when every `prev` link mirrors the `next` link before it and the first has no `prev`.
+    pub links_ok: bool,
+    /// `true` when every walked element is marked as being in the buffer.
+    pub marks_ok: bool,
+}
+
+/// Walks the buffer of possible cycle roots, writing up to `out.len()` element addresses to `out`.
+#[inline(never)]
+pub fn walk_buffer(out: &mut [usize]) -> BufferWalk {
+    let limit = out.len();
+    POSSIBLE_CYCLES.try_with(|pc| {
+        let mut res = BufferWalk {
+            accessible: true,
+            cached_size: pc.size(),
+            walked: 0,
+            links_ok: true,
+            marks_ok: true,
+        };
+        let mut prev: usize = 0;
+        let mut cur = pc.first();
+        while let Some(ptr) = cur {
+            if res.walked >= limit {
+                res.links_ok = false; // Longer than expected (or cyclic)
+                break;
+            }
+            let snap = unsafe { snapshot_raw(ptr) };
+            out[res.walked] = snap.addr;
+            res.walked += 1;
+            if snap.prev != prev {
+                res.links_ok = false;
+            }
+            if snap.mark != 1 {
+                res.marks_ok = false;
+            }
+            prev = snap.addr;
+            cur = unsafe { *ptr.as_ref().get_next() };
+        }
+        res
+    }).unwrap_or(BufferWalk {
+        accessible: false,
+        cached_size: 0,
+        walked: 0,
+        links_ok: true,
+        marks_ok: true,
+    })
+}
+
+/// Adds `n` to the strong counter of `cc`, exactly as `n` times `mem::forget(cc.clone())` would
+/// (including the removal from the buffer `clone` performs). Returns `false`, changing nothing,
+/// if the counter would exceed the maximum.
+#[inline(never)]
+pub fn add_phantom_strong<T: ?Sized + Trace>(cc: &Cc<T>, n: u16) -> bool {
+    let cm = cc.inner().counter_marker();
+    if n == 0 {
+        return true;
+    }
+    if !cm.verif_add_counter(n) {
+        return false;
+    }
+    cc.mark_alive();
+    true
+}
+
+/// Removes `n` phantom strong references previously added with [`add_phantom_strong`], without
+/// any of the side effects of dropping (the caller must keep at least one real reference).
+#[inline(never)]
+pub fn sub_phantom_strong<T: ?Sized + Trace>(cc: &Cc<T>, n: u16) -> bool {
+    cc.inner().counter_marker().verif_sub_counter(n)
+}
+
+/// Adds `n` to the weak counter of the side record of `cc` (which must already exist), exactly as
+/// `n` times `mem::forget(weak.clone())` would. Returns `false`, changing nothing, on overflow.
+#[cfg(feature = "weak-ptrs")]
+#[inline(never)]
+pub fn add_phantom_weak<T: ?Sized + Trace>(cc: &Cc<T>, n: u16) -> bool {
+    if !cc.inner().counter_marker().has_allocated_for_metadata() {
+        return false;
+    }
+    unsafe { cc.inner().get_metadata_unchecked().as_ref() }.weak_counter_marker.verif_add_counter(n)
+}
+
+/// Removes `n` phantom weak references previously added with [`add_phantom_weak`].
+#[cfg(feature = "weak-ptrs")]
+#[inline(never)]
+pub fn sub_phantom_weak<T: ?Sized + Trace>(cc: &Cc<T>, n: u16) -> bool {
+    if !cc.inner().counter_marker().has_allocated_for_metadata() {
+        return false;
+    }
+    unsafe { cc.inner().get_metadata_unchecked().as_ref() }.weak_counter_marker.verif_sub_counter(n)
+}
+
+/// Returns the current byte threshold of the automatic collection policy.
+#[cfg(feature = "auto-collect")]
+#[inline]
+pub fn bytes_threshold() -> Option<usize> {
+    crate::config::config(|config| config.verif_bytes_threshold()).ok()
+}
+
+/// One step of the automatic-collection policy kernel from an arbitrary configuration.
+#[cfg(feature = "auto-collect")]
+pub use crate::config::{verif_policy_adjust as policy_adjust, verif_policy_should_collect as policy_should_collect};
+
+/// Kernel wrappers over the strong counter / marker word pair.
+pub mod counter_kernel {
+    use crate::counter_marker::{CounterMarker, Mark};
+
+    /// Operations of `CounterMarker`, numbered for the harnesses.
+    #[inline(never)]
+    pub fn apply(tc: u16, c: u16, op: u8) -> (u16, u16, u8) {
+        let cm = CounterMarker::verif_from_raw(tc, c);
+        // result: 0 = Ok / false, 1 = Err / true, 2 = not available
+        let r: u8 = match op {
+            0 => cm.increment_counter().is_err() as u8,
+            1 => cm.decrement_counter().is_err() as u8,
+            2 => cm.increment_tracing_counter().is_err() as u8,
+            3 => { cm.reset_tracing_counter(); 0 },
+            4 => { cm.mark(Mark::NonMarked); 0 },
+            5 => { cm.mark(Mark::PossibleCycles); 0 },
+            6 => { cm.mark(Mark::InList); 0 },
+            7 => { cm.mark(Mark::InQueue); 0 },
+            #[cfg(feature = "finalization")]
+            8 => { cm.set_finalized(true); 0 },
+            #[cfg(feature = "finalization")]
+            9 => { cm.set_finalized(false); 0 },
+            #[cfg(feature = "weak-ptrs")]
+            10 => { cm.set_allocated_for_metadata(true); 0 },
+            #[cfg(feature = "weak-ptrs")]
+            11 => { cm.set_allocated_for_metadata(false); 0 },
+            #[cfg(feature = "weak-ptrs")]
+            12 => { cm.set_dropped(true); 0 },
+            _ => 2,
+        };
+        let (tc, c) = cm.verif_raw();
+        (tc, c, r)
+    }
+
+    /// Accessors of `CounterMarker`, numbered for the harnesses.
+    #[inline(never)]
+    pub fn query(tc: u16, c: u16, q: u8) -> u16 {
+        let cm = CounterMarker::verif_from_raw(tc, c);
+        match q {
+            0 => cm.counter(),
+            1 => cm.tracing_counter(),
+            2 => cm.is_not_marked() as u16,
+            3 => cm.is_in_possible_cycles() as u16,
+            4 => cm.is_in_list() as u16,
+            5 => cm.is_in_list_or_queue() as u16,
+            #[cfg(feature = "finalization")]
+            6 => cm.needs_finalization() as u16,
+            #[cfg(feature = "weak-ptrs")]
+            7 => cm.has_allocated_for_metadata() as u16,
+            #[cfg(feature = "weak-ptrs")]
+            8 => cm.is_dropped() as u16,
+            _ => u16::MAX,
+        }
+    }
+}
+
+/// Kernel wrappers over the weak counter word.
+#[cfg(feature = "weak-ptrs")]
+pub mod weak_kernel {
+    use crate::weak::weak_counter_marker::WeakCounterMarker;
+
+    #[inline(never)]
+    pub fn apply(w: u16, op: u8) -> (u16, u8) {
+        let wcm = WeakCounterMarker::verif_from_raw(w);
+        let r: u8 = match op {
+            0 => wcm.increment_counter().is_err() as u8,
+            1 => wcm.decrement_counter().is_err() as u8,
+            2 => { wcm.set_accessible(true); 0 },
+            3 => { wcm.set_accessible(false); 0 },
+            _ => 2,
+        };
+        (wcm.verif_raw(), r)
+    }
+
+    #[inline(never)]
+    pub fn query(w: u16, q: u8) -> u16 {
+        let wcm = WeakCounterMarker::verif_from_raw(w);
+        match q {
+            0 => wcm.counter(),
+            1 => wcm.is_accessible() as u16,
+            _ => u16::MAX,
+        }
+    }
+}
